@@ -17,6 +17,8 @@ package c18
 //        sides < π contains −O, so the sum is Area if −O is outside and Area − 4π if −O is inside
 //   centroid·area (= vector area): ½ ∮ x × dx = ½ Σ θ_i · (v_i × v_{i+1}) / |v_i × v_{i+1}|
 //
+// Products are exact integers (see hpLoop), not fixed-precision floats.
+//
 // None of this shares a formula with the library (which uses l'Huilier /
 // Girard for areas, Cramer's rule per fan triangle for centroids and
 // RobustCrossProd+Angle for turning angles).
@@ -63,35 +65,72 @@ func (a *acc) add(x float64)   { a.s = hp.Add(a.s, hp.F(x)) }
 func (a *acc) float() float64  { return hp.Float(a.s) }
 func (a *acc) big() *big.Float { return a.s }
 
+// bf converts an exact integer to a big.Float without rounding.
+func bf(x *big.Int) *big.Float {
+	prec := uint(x.BitLen() + 64)
+	if prec < hp.Prec {
+		prec = hp.Prec
+	}
+	return new(big.Float).SetPrec(prec).SetInt(x)
+}
+
+func fmul(a, b *big.Float) *big.Float {
+	p := a.Prec()
+	if b.Prec() > p {
+		p = b.Prec()
+	}
+	return new(big.Float).SetPrec(p).Mul(a, b)
+}
+
+func fadd(a, b *big.Float) *big.Float {
+	p := a.Prec()
+	if b.Prec() > p {
+		p = b.Prec()
+	}
+	return new(big.Float).SetPrec(p).Add(a, b)
+}
+
+func fsqrt(a *big.Float) *big.Float {
+	if a.Sign() <= 0 {
+		return new(big.Float).SetPrec(a.Prec())
+	}
+	return new(big.Float).SetPrec(a.Prec()).Sqrt(a)
+}
+
+// hpLoop holds a vertex chain scaled by one power of two to integer vectors
+// (exact.IntVecs), so that cross products, dot products and determinants are
+// exact integers whatever the exponent spread of the coordinates is (a
+// fixed-precision float would lose a 1e-180 coordinate next to a 0.5 one, and
+// with it the whole determinant of a needle triangle). Only norms (square
+// roots, no cancellation) and the final quotients are rounded, at ≥ 320 bits.
 type hpLoop struct {
 	n  int
 	v  []r3.Vector
-	h  []hp.V
-	cr []hp.V       // cr[i] = v[i] × v[i+1]
-	nr []*big.Float // |v[i]|
+	iv []exact.Vec
+	cr []exact.Vec  // cr[i] = v[i] × v[i+1]   (scale 2^2E)
+	nr []*big.Float // |v[i]|                  (scale 2^E)
 }
 
 func newHPLoop(v []r3.Vector) *hpLoop {
 	n := len(v)
-	l := &hpLoop{n: n, v: v, h: make([]hp.V, n), cr: make([]hp.V, n), nr: make([]*big.Float, n)}
+	iv, _ := exact.IntVecs(v...)
+	l := &hpLoop{n: n, v: v, iv: iv, cr: make([]exact.Vec, n), nr: make([]*big.Float, n)}
 	for i := range v {
-		l.h[i] = hp.Vec(v[i])
-		l.nr[i] = l.h[i].Norm()
-	}
-	for i := range v {
-		l.cr[i] = l.h[i].Cross(l.h[(i+1)%n])
+		l.nr[i] = fsqrt(bf(exact.Norm2(iv[i])))
+		l.cr[i] = exact.Cross(iv[i], iv[(i+1)%n])
 	}
 	return l
 }
 
-// turnAt is the signed exterior angle at vertex i and the exact orientation used.
+// turnAt is the signed exterior angle at vertex i:
+// atan2(|det(a,b,c)|·|b|, (a×b)·(b×c)) (both of scale 2^4E), signed by the
+// exact, symbolically perturbed orientation.
 func (l *hpLoop) turnAt(i int) float64 {
 	n := l.n
 	p, nx := (i+n-1)%n, (i+1)%n
-	ab, bc := l.cr[p], l.cr[i]
-	dot := ab.Dot(bc)
-	det := l.h[p].Dot(bc) // a·(b×c)
-	sin := hp.Mul(hp.Abs(det), l.nr[i])
+	dot := bf(exact.Dot(l.cr[p], l.cr[i]))
+	det := exact.Dot(l.iv[p], l.cr[i]) // a·(b×c)
+	sin := fmul(bf(new(big.Int).Abs(det)), l.nr[i])
 	ang := atan2Big(sin, dot)
 	if exact.Sign(l.v[p], l.v[i], l.v[nx]) > 0 {
 		return ang
@@ -110,68 +149,77 @@ func (l *hpLoop) turning() (t, oerr float64) {
 	return a.float(), 4 * eps * float64(l.n)
 }
 
-// triArea is the signed area of (a,b,c) by Eriksson's formula, in (−2π, 2π).
-func triArea(a, b, c hp.V, na, nb, nc *big.Float) float64 {
-	det := a.Dot(b.Cross(c))
-	den := hp.Mul(hp.Mul(na, nb), nc)
-	den = hp.Add(den, hp.Mul(a.Dot(b), nc))
-	den = hp.Add(den, hp.Mul(b.Dot(c), na))
-	den = hp.Add(den, hp.Mul(c.Dot(a), nb))
+// eriksson: 2·atan2(det, |o||a||b| + (o·a)|b| + (a·b)|o| + (b·o)|a|), all of scale 2^3E.
+func eriksson(o, a, b exact.Vec, crab exact.Vec, no, na, nb *big.Float) float64 {
+	det := bf(exact.Dot(o, crab))
+	den := fmul(fmul(no, na), nb)
+	den = fadd(den, fmul(bf(exact.Dot(o, a)), nb))
+	den = fadd(den, fmul(bf(exact.Dot(a, b)), no))
+	den = fadd(den, fmul(bf(exact.Dot(b, o)), na))
 	return 2 * atan2Big(det, den)
 }
 
-// TriArea is the signed area of a triangle of float64 points.
+// TriArea is the signed area (in (−2π, 2π)) of a triangle of float64 points.
 func TriArea(a, b, c r3.Vector) float64 {
-	ha, hb, hc := hp.Vec(a), hp.Vec(b), hp.Vec(c)
-	return triArea(ha, hb, hc, ha.Norm(), hb.Norm(), hc.Norm())
+	iv, _ := exact.IntVecs(a, b, c)
+	n := func(v exact.Vec) *big.Float { return fsqrt(bf(exact.Norm2(v))) }
+	return eriksson(iv[0], iv[1], iv[2], exact.Cross(iv[1], iv[2]), n(iv[0]), n(iv[1]), n(iv[2]))
 }
 
 // fanArea returns S = Σ E(o, v_i, v_{i+1}) and Σ|E|. The oracle error is
 // ≤ 3·eps·Σ|E| (1 ulp of Atan2 and two argument roundings, relative).
 func (l *hpLoop) fanArea(o r3.Vector) (s, sumAbs float64) {
-	ho := hp.Vec(o)
-	no := ho.Norm()
+	all := append(append([]r3.Vector{}, l.v...), o)
+	iv, _ := exact.IntVecs(all...)
+	io := iv[l.n]
+	nr := make([]*big.Float, l.n+1)
+	for i := range iv {
+		nr[i] = fsqrt(bf(exact.Norm2(iv[i])))
+	}
 	a, b := newAcc(), newAcc()
 	for i := 0; i < l.n; i++ {
 		j := (i + 1) % l.n
-		// det(o, v_i, v_j) = o·cr[i]
-		det := ho.Dot(l.cr[i])
-		den := hp.Mul(hp.Mul(no, l.nr[i]), l.nr[j])
-		den = hp.Add(den, hp.Mul(ho.Dot(l.h[i]), l.nr[j]))
-		den = hp.Add(den, hp.Mul(l.h[i].Dot(l.h[j]), no))
-		den = hp.Add(den, hp.Mul(l.h[j].Dot(ho), l.nr[i]))
-		e := 2 * atan2Big(det, den)
+		e := eriksson(io, iv[i], iv[j], exact.Cross(iv[i], iv[j]), nr[l.n], nr[i], nr[j])
 		a.add(e)
 		b.add(math.Abs(e))
 	}
 	return a.float(), b.float()
 }
 
+func (l *hpLoop) edgeAngle(i int) (th float64, crossNorm *big.Float) {
+	j := (i + 1) % l.n
+	cn := fsqrt(bf(exact.Norm2(l.cr[i])))
+	return atan2Big(cn, bf(exact.Dot(l.iv[i], l.iv[j]))), cn
+}
+
 // centroid returns ½ Σ θ_i n̂_i (the integral of position over the interior,
 // = minus the integral over the exterior) and the perimeter Σ θ_i. The oracle
 // error is ≤ eps·perimeter in each coordinate (θ_i has relative error < 2·eps).
 func (l *hpLoop) centroid() (c r3.Vector, perimeter float64) {
-	sum := hp.Vec(r3.Vector{})
+	sum := [3]*big.Float{hp.F(0), hp.F(0), hp.F(0)}
 	per := newAcc()
 	for i := 0; i < l.n; i++ {
-		j := (i + 1) % l.n
-		cn := l.cr[i].Norm()
+		th, cn := l.edgeAngle(i)
 		if cn.Sign() == 0 {
 			continue
 		}
-		th := atan2Big(cn, l.h[i].Dot(l.h[j]))
 		per.add(th)
-		sum = sum.Add(l.cr[i].Scale(hp.Quo(hp.F(th), cn)))
+		f := new(big.Float).SetPrec(cn.Prec()).Quo(hp.F(th), cn)
+		for k := 0; k < 3; k++ {
+			sum[k] = fadd(sum[k], fmul(bf(l.cr[i][k]), f))
+		}
 	}
-	return sum.Scale(hp.F(0.5)).R3(), per.float()
+	x, _ := sum[0].Float64()
+	y, _ := sum[1].Float64()
+	z, _ := sum[2].Float64()
+	return r3.Vector{X: x / 2, Y: y / 2, Z: z / 2}, per.float()
 }
 
 // maxEdge returns the longest edge (radians).
 func (l *hpLoop) maxEdge() float64 {
 	m := 0.0
 	for i := 0; i < l.n; i++ {
-		j := (i + 1) % l.n
-		if th := atan2Big(l.cr[i].Norm(), l.h[i].Dot(l.h[j])); th > m {
+		if th, _ := l.edgeAngle(i); th > m {
 			m = th
 		}
 	}
@@ -183,6 +231,11 @@ func (l *hpLoop) maxEdge() float64 {
 func triCentroid(a, b, c r3.Vector) (r3.Vector, float64) {
 	l := newHPLoop([]r3.Vector{a, b, c})
 	return l.centroid()
+}
+
+// parallel reports whether a × b is exactly the zero vector.
+func parallel(a, b r3.Vector) bool {
+	return exact.IsZero(exact.Cross(exact.IntVec(a), exact.IntVec(b)))
 }
 
 // simpleExact reports whether the closed chain v is a valid loop in the
@@ -197,12 +250,11 @@ func simpleExact(v []r3.Vector) bool {
 	}
 	for i := 0; i < n; i++ {
 		for j := i + 1; j < n; j++ {
-			if v[i] == v[j] {
+			// identical or same/opposite direction (lengths differing by an
+			// ulp): a degenerate or antipodal pair, outside every documented domain
+			if v[i] == v[j] || parallel(v[i], v[j]) {
 				return false
 			}
-		}
-		if v[i] == v[(i+1)%n].Mul(-1) {
-			return false
 		}
 	}
 	for i := 0; i < n; i++ {
